@@ -40,9 +40,8 @@ func v2app(n *consensus.Network, h uint64) bool { return h >= n.HardforkV2.Allow
 func run(c *vf.Ctx) {
 	c.Set("rule", "explicit-state DFS over the union alphabet; at every distinct state, for one canonical live element of every kind (v1-address SC incl. its use as the miner fee of a storage proof transaction, v2-address SC, zero-signature SC and SF, in-block ephemeral output, SF, SF at the old developer address incl. the dev-address override, v1 contract, v2 contract) every ordered pair (first use, second use) of applicable uses x every placement {same transaction, same transaction separated by the same kind of use of another element, later transaction of the same block, later transaction of the same block after an in-block revision of the contract, next block with stale proof, next block with proof maintained through the update, next block presenting the contract in its revised form after a block [revision, first use], after a reorg that re-applies the first use}; plus, for every live v1 contract, its resolution (storage proof / natural expiration) followed by a next block whose SUPPLEMENT lists it as expiring again (pre-resolution proof and proof maintained through the resolving block), and the contract listed twice in the supplement of its expiration block; oracle: attack block rejected, control blocks (each use alone) accepted; a case is distinct per (network, height, element kind, first use, second use, placement)")
 	nets := []string{"v1-eras", "mixed", "v2-only"}
-	if !c.Quick() {
-		nets = append(nets, "v2-eph5") // (a fifth network, v1-mid, did not fit the 25-minute budget with the present attack menu: measured 1320 s with it)
-	}
+	// (thorough tier: the same three network families at K=2; a fourth (v2-eph5) and a fifth (v1-mid) network did not fit
+	// the 25-minute budget with the present attack menu - measured 1500 s (cap) with four on a loaded machine)
 	for _, n := range nets {
 		if c.Expired() {
 			break
